@@ -9,6 +9,7 @@ listed = claimed | {x['property_id'] for x in na}
 for p in props:
     if p['id'] not in listed:
         na.append({'property_id': p['id'], 'reason': 'check not built yet in this session (work in progress; see DESIGN.md section 4 for the planned check)'})
+BUILD = 'GOFLAGS=-mod=mod GOPROXY=off GOSUMDB=off GOTOOLCHAIN=local GOWORK=off go build -o bin/verif ./cmd/verif'  # the driver itself (setup_cmd builds it too)
 out = {
  'version': 1,
  'setup_cmd': 'cd /verif && GOFLAGS=-mod=mod GOPROXY=off GOSUMDB=off GOTOOLCHAIN=local GOWORK=off go run ./cmd/verif setup',
@@ -28,8 +29,8 @@ for c in checks['checks']:
     pid = c['property_id']
     out['checks'].append({
       'property_id': pid,
-      'quick_cmd': f'cd /verif && ./bin/verif check {pid} --tier quick',
-      'thorough_cmd': f'cd /verif && ./bin/verif check {pid} --tier thorough',
+      'quick_cmd': f'cd /verif && {{ [ -x bin/verif ] || {BUILD}; }} && ./bin/verif check {pid} --tier quick',
+      'thorough_cmd': f'cd /verif && {{ [ -x bin/verif ] || {BUILD}; }} && ./bin/verif check {pid} --tier thorough',
       'evidence_file': f'/verif/evidence/{pid}.json',
       'replay_cmd_template': 'cd /verif && ./bin/verif replay {path}',
       'engine': c['engine'],
